@@ -45,26 +45,7 @@ def fmt_qty(v, u):
     return "{%s %s}" % (fmt_num(v), u)
 
 
-def gen_split(rng):
-    tot_unit = rng.choice(UN)
-    tv = rng.choice([1, 2, 10, 100, 250, 0.5, 1.5, 20.0, Fraction(3, 2), 500, 0, 0.0])
-    kind = rng.choice(["ing", "ing", "ing", "step", "noqty", "two", "named", "named2", "multi"])
-    name = "thing"
-    if kind == "ing":
-        lines = ["%s %s" % (fmt_qty(tv, tot_unit), name)]
-    elif kind == "step":
-        lines = ["%s %s, chopped, washed" % (fmt_qty(tv, tot_unit), name)]
-    elif kind == "noqty":
-        lines = [name]
-    elif kind == "two":
-        lines = ["%s = mix(%s a, 2 b)" % (name, fmt_qty(tv, tot_unit))]
-    elif kind == "named":
-        lines = ["%s = %s raw" % (name, fmt_qty(tv, tot_unit))]
-    elif kind == "named2":
-        lines = ["%s := %s raw, chopped" % (name, fmt_qty(tv, tot_unit))]
-    else:
-        lines = ["%s, other = split(%s raw)" % (name, fmt_qty(tv, tot_unit))]
-    has_total = kind in ("ing", "step", "named", "named2")
+def gen_uses(rng, has_total, tv, tot_unit):
     uses = []
     n = rng.choice([1, 2, 2, 3, 4])
     target = rng.choice([1, 1, Fraction(98, 100), Fraction(100, 98), Fraction(99, 100), Fraction(97, 100), Fraction(103, 100), Fraction(1, 2), Fraction(3, 2), 1])
@@ -105,19 +86,49 @@ def gen_split(rng):
         else:
             uses.append("%s *" % fmt_num(float(share)))
     rng.shuffle(uses)
+    return uses
+
+
+def gen_split(rng):
+    tot_unit = rng.choice(UN)
+    tv = rng.choice([1, 2, 10, 100, 250, 0.5, 1.5, 20.0, Fraction(3, 2), 500, 0, 0.0])
+    kind = rng.choice(["ing", "ing", "ing", "step", "noqty", "two", "named", "named2", "multi"])
+    name = "thing"
+    if kind == "ing":
+        lines = ["%s %s" % (fmt_qty(tv, tot_unit), name)]
+    elif kind == "step":
+        lines = ["%s %s, chopped, washed" % (fmt_qty(tv, tot_unit), name)]
+    elif kind == "noqty":
+        lines = [name]
+    elif kind == "two":
+        lines = ["%s = mix(%s a, 2 b)" % (name, fmt_qty(tv, tot_unit))]
+    elif kind == "named":
+        lines = ["%s = %s raw" % (name, fmt_qty(tv, tot_unit))]
+    elif kind == "named2":
+        lines = ["%s := %s raw, chopped" % (name, fmt_qty(tv, tot_unit))]
+    else:
+        lines = ["%s, other = split(%s raw)" % (name, fmt_qty(tv, tot_unit))]
+    has_total = kind in ("ing", "step", "named", "named2")
+    named_uses = [(name, gen_uses(rng, has_total, tv, tot_unit))]
+    if kind == "multi" and rng.random() < 0.7:
+        # the other output of the same statement is used too, with verdicts of its own (in either order relative to the first output's uses)
+        named_uses.append(("other", gen_uses(rng, False, tv, tot_unit)))
+        if rng.random() < 0.5:
+            named_uses.reverse()
     blocks = [lines]
     cur = blocks[0]
-    i = 0
-    while i < len(uses):
-        m = rng.randint(1, len(uses) - i)
-        stmt = "%s(%s)" % (rng.choice(["mix", "fry"]), ", ".join("%s %s" % (u, name) for u in uses[i:i + m]) + (", salt" if rng.random() < 0.3 else ""))
-        if rng.random() < 0.2:
-            stmt = "part%d = %s" % (i, stmt)
-        if rng.random() < 0.25:
-            cur = []
-            blocks.append(cur)
-        cur.append(stmt)
-        i += m
+    for nm, uses in named_uses:
+        i = 0
+        while i < len(uses):
+            m = rng.randint(1, len(uses) - i)
+            stmt = "%s(%s)" % (rng.choice(["mix", "fry"]), ", ".join("%s %s" % (u, nm) for u in uses[i:i + m]) + (", salt" if rng.random() < 0.3 else ""))
+            if rng.random() < 0.2:
+                stmt = "part%s%d = %s" % (nm[0], i, stmt)
+            if rng.random() < 0.25:
+                cur = []
+                blocks.append(cur)
+            cur.append(stmt)
+            i += m
     return ["\n".join(b) for b in blocks if b]
 
 
@@ -398,6 +409,20 @@ EXPECTED = [
     (["2 onions\nfry(1 onions)\nboil(1 onions)"], []),
     (["2 onions\nfry(1 onions)"], ["sub_recipe_not_used_up"]),
     (["1 egg\nfry(eggs, oil)"], ["unused_ingredient"]),
+    # chains of definitions used once by the full quantity (each link is folded into the next: nothing to report), with a titled link,
+    # a free-form unit, a conversion; and the same chains used in two halves / only in part
+    (["fried spam := fry(100g spam)\nmeal = boil(fried spam)\nserve(100g of meal)"], []),
+    (["100g spam\nfried spam := fry(spam)\nmeal = boil(fried spam)\nserve(0.1 kg of meal, peas)"], []),
+    (["{2 handfuls} rice\ncooked rice = boil(rice)\ndinner = season(cooked rice)\nserve({2 handfuls} of dinner)"], []),
+    (["100g spam\nfried spam = fry(spam)\nmeal = boil(fried spam)\nserve(50g of meal)\nfreeze(50 g of meal)"], []),
+    (["100g spam\nfried spam = fry(spam)\nmeal = boil(fried spam)\nserve(50g of meal)"], ["sub_recipe_not_used_up"]),
+    (["100g spam\nfried spam = fry(spam)\nmeal = boil(fried spam)\nserve(60g of meal)\nfreeze(60g of meal)"], ["sub_recipe_used_too_much"]),
+    # (with a titled link - 'fried spam := ...' - the linter does not look through the title and reports an unknown total for two partial uses,
+    #  while the compiler does look through it when it decides whether one use takes the whole: undocumented either way, not claimed)
+    # several outputs of one statement, each with its own verdict, in either order
+    (["veg, stock = boil(2 carrots)\nsoup(200ml of stock)\nserve(1/2 of veg)"], ["sub_recipe_quantity_unknown", "sub_recipe_not_used_up"]),
+    (["veg, stock = boil(2 carrots)\nserve(1/2 of veg)\nsoup(200ml of stock)"], ["sub_recipe_quantity_unknown", "sub_recipe_not_used_up"]),
+    (["veg, stock = boil(2 carrots)\nserve(1/2 of veg, 3/4 of veg)\nsoup(1/2 of stock)"], ["sub_recipe_used_too_much", "sub_recipe_not_used_up"]),
 ]
 
 
